@@ -114,7 +114,7 @@ CONFIG = {
                 "perft of the rules spec (sum over k = 1..depth+1 of the number of legal move sequences of length k)",
     },
     "C14": {
-        "ignore_ops": ("pos", "game", "gtoggle", "gunplay"), "spec_tags": ("gcoord", "galg", "glabels", "gsnap", "cliin", "gbsnap", "pvp"), "sample_tags": ("gcoord", "galg", "cliin", "pvp"),
+        "sort_tags": ("glabels",), "ignore_ops": ("pos", "game", "gtoggle", "gunplay"), "spec_tags": ("gcoord", "galg", "glabels", "gsnap", "cliin", "gbsnap", "pvp"), "sample_tags": ("gcoord", "galg", "cliin", "pvp"),
         "rule": "games played through the Game API: at every node several rejected inputs (mutated labels, labels of the previous position, illegal coordinate pairs; periodically all 4096 pairs) "
                 "must leave the game snapshot (board, clocks, key, history) unchanged, and one accepted input (by label or by coordinates) must play exactly the named move and append it to the history; "
                 "every answer is compared with the model's apply_by_coords / apply_by_notation",
